@@ -12,7 +12,7 @@ from harness.core import cfg_text, Machinery
 from harness.drivers import keys as K
 
 KNOWN_DEFECTS = ["ed_no_verify_key", "ed_sig_length", "ecdsa_negative", "alg_not_text"]
-MUTATIONS = ["mut_skip_alg_check", "mut_ignore_data", "mut_ignore_hash"]
+MUTATIONS = ["mut_skip_alg_check", "mut_ignore_data", "mut_ignore_hash", "mut_strip_zeros"]
 INVS = ["Total", "AcceptsGenuine", "RejectsForged", "InModel"]
 BASE_NAMES = ["ssh-rsa", "rsa-sha2-256", "rsa-sha2-512", "ecdsa-sha2-nistp256", "ecdsa-sha2-nistp384",
               "ecdsa-sha2-nistp521", "ssh-ed25519"]
@@ -218,7 +218,7 @@ def run(c):
     c.mc("Signatures", cfg_text(constants=consts(KNOWN_DEFECTS), invariants=INVS),
          expect="Total", name="faithful to the pinned tree (all four defects)")
     sens = [(d, "Total") for d in KNOWN_DEFECTS] + [(m, "RejectsForged") for m in MUTATIONS]
-    if c.quick:                   # one toggle per quick run, rotating with the seed; thorough runs all seven
+    if c.quick:                   # one toggle per quick run, rotating with the seed; thorough runs all eight
         sens = [sens[(c.seed + 4) % len(sens)]]
     for d, inv in sens:
         c.mc("Signatures", cfg_text(constants=consts([d]), invariants=INVS), expect=inv, name="sensitivity " + d)
